@@ -78,7 +78,9 @@ var poison = func() []byte {
 
 // decodeOne decodes a capacity-trimmed copy of in (placed in the middle of a poisoned buffer) into a fresh
 // value of type t. A re-slice beyond the input panics (cap == len).
-func decodeOne(st *c16Stats, ut uType, param string, in []byte, slow bool) { decodeExp(st, ut, param, in, slow, "") }
+func decodeOne(st *c16Stats, ut uType, param string, in []byte, slow bool) {
+	decodeExp(st, ut, param, in, slow, "")
+}
 
 // decodeExp: mustErr != "" names the class of malformed input that must be reported as an error.
 func decodeExp(st *c16Stats, ut uType, param string, in []byte, slow bool, mustErr string) {
